@@ -26,6 +26,7 @@ type Config struct {
 	RepoPrefix  string // module path of the code under test
 	MapOrderAll bool   // range over maps explores all orders
 	InitFuncs   func(pkgPath string) bool // run init#N functions of these packages too
+	MaxHarnessSeconds int // wall-clock budget per harness (0 = none)
 	NoSummaries bool                      // run the real runtime.Sov/Soz instead of their verified summaries
 	CrossCmd    string                    // independent solver re-deciding unsat one-shot queries (thorough tier)
 }
@@ -249,6 +250,7 @@ func (e *Exec) RunHarness(fn *ssa.Function) *HarnessResult {
 	e.res = res
 	e.trail = nil
 	e.model = nil
+	hstart := time.Now()
 	q0, t0 := e.solver.Queries, e.solver.Time
 	e.solver.PopTo(0)
 	for {
@@ -270,6 +272,10 @@ func (e *Exec) RunHarness(fn *ssa.Function) *HarnessResult {
 			fmt.Fprintf(os.Stderr, "  path %d: %s %s (trail %d, steps %d) q=%d hard=%d t=%.1fs terms=%d refresh=%d/%.1fs eval=%.1fs\n", res.Paths, out.kind, out.detail, len(e.trail), e.steps, e.solver.Queries, e.solver.HardQueries, e.solver.Time.Seconds(), e.tb.NumTerms(), e.nRefresh, e.tRefresh.Seconds(), e.tEval.Seconds())
 		}
 		if len(res.Inconclusive) > 20 {
+			break
+		}
+		if e.Cfg.MaxHarnessSeconds > 0 && time.Since(hstart).Seconds() > float64(e.Cfg.MaxHarnessSeconds) {
+			res.Inconclusive = append(res.Inconclusive, fmt.Sprintf("wall-clock budget of %d s per harness exhausted after %d paths", e.Cfg.MaxHarnessSeconds, res.Paths))
 			break
 		}
 		if res.Paths >= e.Cfg.MaxPaths {
